@@ -47,6 +47,8 @@ pub enum BaseStream {
     },
     #[cfg(test)]
     Mock(Cursor<Vec<u8>>),
+    #[cfg(feature = "verif-hooks")]
+    Verif(Box<dyn crate::verif_hooks::Transport>),
 }
 
 impl BaseStream {
@@ -59,6 +61,19 @@ impl BaseStream {
         debug!("trying to connect to {}:{}", host, port);
 
         let stream = match connect_url.scheme() {
+            #[cfg(feature = "verif-hooks")]
+            scheme if (scheme == "http" || scheme == "https") && crate::verif_hooks::has_factory() => {
+                crate::verif_hooks::dial(crate::verif_hooks::Dial {
+                    host: host.to_string(),
+                    port,
+                    scheme: scheme.to_owned(),
+                    url: info.url.to_string(),
+                    proxy: info.proxy.map(|p| p.to_string()),
+                    has_deadline: info.deadline.is_some(),
+                })
+                .map(BaseStream::Verif)
+                .map_err(Into::into)
+            }
             "http" => BaseStream::connect_tcp(&host, port, info)
                 .map(|(stream, timeout)| BaseStream::Plain { stream, timeout }),
             "https" => BaseStream::connect_tls(&host, port, info),
@@ -147,11 +162,20 @@ impl BaseStream {
                         None => rx.try_recv() == Err(mpsc::TryRecvError::Empty),
                     };
 
+                    #[cfg(feature = "verif-hooks")]
+                    crate::verif_hooks::sched_point("wd:woke");
+
                     if shutdown {
                         drop(rx);
 
+                        #[cfg(feature = "verif-hooks")]
+                        crate::verif_hooks::sched_point("wd:rx-dropped");
+
                         #[cfg(not(windows))]
                         let _ = stream.shutdown(Shutdown::Both);
+
+                        #[cfg(feature = "verif-hooks")]
+                        crate::verif_hooks::sched_point("wd:shutdown");
 
                         #[cfg(windows)]
                         extern "system" {
@@ -193,6 +217,8 @@ impl Read for BaseStream {
             BaseStream::Tunnel { stream } => stream.read(buf),
             #[cfg(test)]
             BaseStream::Mock(s) => s.read(buf),
+            #[cfg(feature = "verif-hooks")]
+            BaseStream::Verif(s) => s.read(buf),
         }
     }
 }
@@ -204,6 +230,8 @@ impl Write for BaseStream {
             BaseStream::Plain { stream, .. } => stream.write(buf),
             BaseStream::Tls { stream, .. } => stream.write(buf),
             BaseStream::Tunnel { stream } => stream.write(buf),
+            #[cfg(feature = "verif-hooks")]
+            BaseStream::Verif(s) => s.write(buf),
             #[cfg(test)]
             _ => Ok(0),
         }
@@ -215,6 +243,8 @@ impl Write for BaseStream {
             BaseStream::Plain { stream, .. } => stream.flush(),
             BaseStream::Tls { stream, .. } => stream.flush(),
             BaseStream::Tunnel { stream } => stream.flush(),
+            #[cfg(feature = "verif-hooks")]
+            BaseStream::Verif(s) => s.flush(),
             #[cfg(test)]
             _ => Ok(()),
         }
@@ -222,8 +252,18 @@ impl Write for BaseStream {
 }
 
 fn read_timeout(stream: &mut impl Read, buf: &mut [u8], timeout: &Option<mpsc::Sender<()>>) -> io::Result<usize> {
+    #[cfg(feature = "verif-hooks")]
+    if timeout.is_some() {
+        crate::verif_hooks::sched_point("rd:before-read");
+    }
+
     match stream.read(buf) {
         Ok(0) => {
+            #[cfg(feature = "verif-hooks")]
+            if timeout.is_some() && !buf.is_empty() {
+                crate::verif_hooks::sched_point("rd:zero");
+            }
+
             #[cfg(unix)]
             if let Some(timeout) = timeout {
                 // On Unix we get a 0 read when the connection is shutdown by the timeout thread.
@@ -231,6 +271,12 @@ fn read_timeout(stream: &mut impl Read, buf: &mut [u8], timeout: &Option<mpsc::S
                     return Err(io::ErrorKind::TimedOut.into());
                 }
             }
+
+            #[cfg(feature = "verif-hooks")]
+            if timeout.is_some() && !buf.is_empty() {
+                crate::verif_hooks::sched_point("rd:pinged");
+            }
+
             Ok(0)
         }
         Ok(read) => Ok(read),
